@@ -4,6 +4,7 @@ src/md/relic_md_xmd.c (md_xmd_*: the streaming Reset/Input/Result calls with the
 -/
 import RelicVerif.Spec.Mac
 import RelicVerif.Model.Sha256
+import RelicVerif.Model.ShaStream
 
 namespace Relic.Model.Md
 open Relic.Spec.Mac (Bytes Hash be32)
@@ -62,5 +63,9 @@ def mdXmd (S : Stream) (bufLen : Nat) (inp dst : Bytes) : Option Bytes := do
   loop ell 1 (List.replicate S.outLen 0) []
 
 def sha256Stream : Stream := { run := Sha256.mdMapChunks, outLen := 32, blockLen := 64 }
+/-- md_xmd_sh224 / sh384 / sh512 call SHA*Reset / Input / Result of sha224-256.c resp. sha384-512.c -/
+def sha224Stream : Stream := { run := ShaStream.run ShaStream.sha224P, outLen := 28, blockLen := 64 }
+def sha384Stream : Stream := { run := ShaStream.run ShaStream.sha384P, outLen := 48, blockLen := 128 }
+def sha512Stream : Stream := { run := ShaStream.run ShaStream.sha512P, outLen := 64, blockLen := 128 }
 
 end Relic.Model.Md
